@@ -558,6 +558,7 @@ class Executor:
     def run_path(self):
         st, names = self.init_state()
         self.st = st
+        st.executor = self
         self.entry_names = dict(names)
         if self.c.ghost_init:
             self.c.ghost_init(st, Scope(st, names))
